@@ -1,6 +1,6 @@
 (* C12 -- ignore patterns exclude consistently and only ever accumulate.  Statements only. *)
 From Coq Require Import Permutation.
-From MHL Require Import Model.Commands Gen.Generated Proofs.BaseFacts Proofs.IgnoreFacts Proofs.CommitFacts Proofs.TreeFacts Proofs.FreshFacts.
+From MHL Require Import Model.Commands Gen.Generated Proofs.BaseFacts Proofs.IgnoreFacts Proofs.CommitFacts Proofs.TreeFacts Proofs.FreshFacts Proofs.ReloadFacts Proofs.NestedFacts.
 
 (* ---- accumulation (ignore.py set_patterns) ---- *)
 Theorem C12_previous_patterns_first : forall existing cli file,
@@ -83,3 +83,14 @@ Proof. split; [repeat constructor; cbn; intros H; repeat destruct H as [H|H]; tr
 Example C12_accumulate_example :
   set_patterns default_ignore [[42; 46; 116]; [97; 115; 99; 109; 104; 108]]%N [[42; 46; 116]]%N = default_ignore ++ [[42; 46; 116]]%N.
 Proof. reflexivity. Qed.
+
+(* ANY NESTING (folder mode): nothing the effective patterns exclude -- neither an ignored entry nor anything below an
+   ignored folder -- gets a record in ANY of the generations a run writes, in whichever history (the record's full path,
+   history root ++ relative path, is a visible entry of the command's folder) *)
+Theorem C12_nested_ignored_never_recorded : forall Hb matches C cdig ser h0 kids hs req no_dh ip ifl,
+  wf_tree C (Dir h0 kids) -> load C cdig (Dir h0 kids) = inl hs -> req <> [] ->
+  let spec := set_patterns (latest_patterns (lh_gens (root_hist hs))) ip (pattern_file_lines ifl) in
+  forall k doc r, In (k, doc) (o_written (snd (create_folder Hb matches C cdig ser (Dir h0 kids) req no_dh false ip ifl))) ->
+    In r (g_records doc) -> visible matches spec [] (k ++ r_path r).
+Proof. exact nested_records_visible. Qed.
+Print Assumptions C12_nested_ignored_never_recorded.
